@@ -202,7 +202,7 @@ def run_num(ctx, seed, F, chunks, reset, B, dk, gravity, known, init_random=True
     st = Stream(rng, seed, F, B, dk, gravity, known, init_random, vec_cov)
     eps = EPS[dk]
     cfg = {"kind": "num", "F": F, "B": B, "reset": reset, "known": known, "g0": gravity == 0.0, "dtype": dk,
-           "chunks": list(chunks), "seed": seed, "stream": st.describe()}
+           "chunks": list(chunks), "ranks": [], "seed": seed, "stream": st.describe()}
     ev = []
     try:
         m = st.make(reset)
@@ -222,6 +222,7 @@ def run_num(ctx, seed, F, chunks, reset, B, dk, gravity, known, init_random=True
         hi = k + ln
         adm = [r for r in (1, 2, 3) if (r != 1 or (ln == 1 and B == 1)) and (r != 2 or B == 1)]
         rank = ranks[ci] if ranks else rng.choice(adm)
+        cfg["ranks"].append(rank)
         e = {"act": "call", "k0": k, "len": ln, "rank": rank, "lo": lo, "hi": hi}
         try:
             out = call(m, st, k, k + ln, rank)
@@ -242,8 +243,11 @@ def run_num(ctx, seed, F, chunks, reset, B, dk, gravity, known, init_random=True
                   "shape_cov": list(o_cov.shape),
                   "finite": bool(all(np.isfinite(x).all() for x in (o_rot, o_vel, o_pos, o_cov)))})
         Ro = quat2mat(o_rot) if o_rot.shape[-1] == 4 else o_rot
-        e["one_rot"] = ulps(Ro, quat2mat(r_rot), eps) if o_rot.shape == r_rot.shape else CAP
-        e["one_vel"] = ulps(o_vel, r_vel, eps)
+        # conditioning of the inputs: Exp(fl(w dt)) moves by eps*|w dt|, a rotated term by eps*|a dt|
+        phi = max(1.0, float(np.abs(tnp(st.gy)[:, lo - 1:hi] * tnp(st.dt)[:, lo - 1:hi]).max()))
+        adt = max(1.0, float(np.abs(tnp(st.ac)[:, lo - 1:hi] * tnp(st.dt)[:, lo - 1:hi]).max()))
+        e["one_rot"] = ulps(Ro, quat2mat(r_rot), eps, floor=phi) if o_rot.shape == r_rot.shape else CAP
+        e["one_vel"] = ulps(o_vel, r_vel, eps, floor=adt)
         e["one_pos"] = ulps(o_pos, r_pos, eps)
         e["one_cov"] = ulps(o_cov, r_cov, eps, floor=0.0)
         if gravity == 0.0:
@@ -252,8 +256,8 @@ def run_num(ctx, seed, F, chunks, reset, B, dk, gravity, known, init_random=True
                                tnp(st.ac)[:, k:hi])
             else:
                 rr = tuple(x[:, k:hi] for x in rec_full)
-            e["rec_rot"] = ulps(Ro, rr[0], eps) if o_rot.shape[-1] == 4 else CAP
-            e["rec_vel"] = ulps(o_vel, rr[1], eps)
+            e["rec_rot"] = ulps(Ro, rr[0], eps, floor=phi) if o_rot.shape[-1] == 4 else CAP
+            e["rec_vel"] = ulps(o_vel, rr[1], eps, floor=adt)
             e["rec_pos"] = ulps(o_pos, rr[2], eps)
         else:
             e["rec_rot"] = e["rec_vel"] = e["rec_pos"] = -1
@@ -262,11 +266,12 @@ def run_num(ctx, seed, F, chunks, reset, B, dk, gravity, known, init_random=True
         e["buf_last"] = e["buf_init"] = -1
         if bufs is not None and init is not None:
             try:
-                if bufs[0].shape[0] == B or not reset:
+                if reset:
+                    e["buf_init"] = max(ulps(quat2mat(bufs[0]), quat2mat(init[0]), eps), ulps(bufs[1], init[1], eps),
+                                        ulps(bufs[2], init[2], eps))
+                else:
                     e["buf_last"] = max(ulps(quat2mat(bufs[0]), quat2mat(o_rot[:, -1]), eps),
                                         ulps(bufs[1], o_vel[:, -1], eps), ulps(bufs[2], o_pos[:, -1], eps))
-                e["buf_init"] = max(ulps(quat2mat(bufs[0]), quat2mat(init[0]), eps) if bufs[0].shape == init[0].shape
-                                    else CAP, ulps(bufs[1], init[1], eps), ulps(bufs[2], init[2], eps))
             except Exception:
                 pass
         ev.append(e)
@@ -374,8 +379,9 @@ def run_exact(ctx, seed, F, chunks, reset, B, dk, gravity, known):
                  "rk": [dyv(x) for x in rks[b][a:b_]] if known else [],
                  "q": [dyv(x) for x in o_rot[b]], "v": [dyv(x) for x in o_vel[b]], "p": [dyv(x) for x in o_pos[b]]}
             if bufs is not None:
-                bb = b if bufs[0].shape[0] == B else 0
-                e["buf"] = {"q": dyv(bufs[0][bb]), "v": dyv(bufs[1][bb]), "p": dyv(bufs[2][bb])}
+                def lane(x):
+                    return x[b if x.shape[0] == B else 0]
+                e["buf"] = {"q": dyv(lane(bufs[0])), "v": dyv(lane(bufs[1])), "p": dyv(lane(bufs[2]))}
             else:       # not observable: the expected value (judged vacuously)
                 e["buf"] = traces[b]["cfg"]["init"] if reset else {"q": e["q"][-1], "v": e["v"][-1], "p": e["p"][-1]}
             traces[b]["ev"].append(e)
@@ -508,7 +514,8 @@ def rerun(ctx, c):
     if c["kind"] == "num":
         s = c["stream"]
         return [run_num(ctx, c["seed"], c["F"], c["chunks"], c["reset"], c["B"], c["dtype"], s["gravity"], c["known"],
-                        init_random=s["init_random"], vec_cov=s["vec_cov"])]
+                        init_random=s["init_random"], vec_cov=s["vec_cov"],
+                        ranks=c["ranks"] if len(c.get("ranks", [])) == len(c["chunks"]) else None)]
     g = Fraction(c["g"][0], 2 ** c["g"][1])
     return run_exact(ctx, c["seed"], c["F"], c["chunks"], c["reset"], c["B"], c["dtype"], float(g), c["known"])
 
@@ -526,8 +533,9 @@ def run(ctx):
         "verdicts by ImuTrace (tolerance 64 ulps per folded frame); exact lattice runs recomputed by TLC (equality); "
         "distinct = (kind, F, chunking, B, dtype, reset, gravity, known)"]
     ctx.assumptions = [
-        "error measures are max-norm ulps of the dtype relative to max(1, |reference|) (covariance: relative to its "
-        "largest entry), tolerance 64 ulps per folded frame (>= 19x what the repaired code measures)",
+        "error measures are max-norm ulps of the dtype relative to max(1, |reference|) (rotation: max(1, largest |w dt|) "
+        "of the folded frames, velocity: also the largest |a dt|, covariance: its largest entry), tolerance 64 ulps per "
+        "folded frame (>= 7x what the repaired code measures)",
         "the recursion clause is judged with gravity 0 (a = measured acceleration) and, exactly, on the lattice with "
         "known / constant rotation and dyadic gravity (a = acc - R^-1 (0,0,g)); with non-zero gravity and integrated "
         "rotation only chunk invariance is judged (no oracle: the frame index of the rotation is not documented)",
